@@ -121,7 +121,8 @@ def cq_store(ids, st):
         if m and not m.group(2):
             blobs.append("(%s,%s)" % (cq_N(ids.h(m.group(1))), cq_N(ids.h(b["sha"]))))
         elif m and m.group(4) is not None:
-            debris.append("(DPartRec %s %s)" % (cq_N(ids.h(m.group(1))), cq_N(int(m.group(4)))))
+            debris.append("(DPartRec %s %s %s)" % (cq_N(ids.h(m.group(1))), cq_N(int(m.group(4))),
+                                                   {"torn": "PRTorn", "todo": "PRTodo", "done": "PRDone"}[b.get("part", "torn")]))
         elif m:
             debris.append("(DPartial %s)" % cq_N(ids.h(m.group(1))))
         elif re.match(r"^sha256-\d+$", nm):
@@ -291,6 +292,35 @@ def gen_legacy(rng, fx, uploaded):
     return {"op": "legacy", "blobs": blobs, "partials": partials}
 
 
+_ZERO_SHA = {}
+
+
+def zero_sha(n):
+    if n not in _ZERO_SHA:
+        h = hashlib.sha256()
+        chunk = bytes(1 << 20)
+        left = n
+        while left > 0:
+            h.update(chunk[:min(left, len(chunk))])
+            left -= len(chunk)
+        _ZERO_SHA[n] = h.hexdigest()
+    return _ZERO_SHA[n]
+
+
+def gen_pull_big(rng, fx, name):
+    """a pull whose manifest has a layer of two download parts: 100 MB + a few KB of zeros, served procedurally"""
+    n_big = 100 * 1000 * 1000 + rng.choice([4096, 70000])
+    model = fx.data[rng.choice(["g0", "g1"])]
+    cfg = rng.choice(CONFIGS)
+    big = {"mediaType": MT_NAME[7], "digest": "sha256:" + zero_sha(n_big), "size": n_big}
+    man = {"schemaVersion": 2, "mediaType": "application/vnd.docker.distribution.manifest.v2+json",
+           "config": mk_layer(8, cfg), "layers": [mk_layer(0, model), big]}
+    n = parse_name(name)
+    blobs = {"sha256:" + sha(model): model.hex(), "sha256:" + sha(cfg): cfg.hex(), big["digest"]: "zeros:%d" % n_big}
+    return {"op": "pull", "name": name, "registry": {"manifests": {(n[1] + "/" + n[2] + ":" + n[3]).lower(): man}, "blobs": blobs},
+            "_manifest": man, "_served": None, "_big": True}
+
+
 def gen_history(rng, fx, n_ops, klass):
     """one history; returns list of ops (harness format, plus private '_' keys used for the oracle)"""
     ops, used, uploaded = [], [], []
@@ -358,7 +388,7 @@ def gen_history(rng, fx, n_ops, klass):
             ops.append(gen_legacy(rng, fx, uploaded))
             ops.append({"op": "startup"})
         else:
-            ops.append({"op": "startup"})
+            ops.append({"op": "startup"} if rng.random() < 0.75 else {"op": "startup", "env": ["OLLAMA_NOPRUNE=1"]})
     if klass != "pull" and rng.random() < 0.35:
         ops.append(gen_legacy(rng, fx, uploaded))
     if rng.random() < 0.7 or (ops and ops[-1]["op"] == "legacy"):
@@ -525,6 +555,10 @@ def act_to_coq(ids, fx, op, before, after):
                                     cq_list([cq_N(ids.h(h)) for h in op.get("partials", [])], "N"))
     if op["op"] == "head":
         return "(AHead %s)" % ids.digest(op["digest"])
+    if op["op"] == "corrupt":
+        return "(ACorrupt %s)" % cq_name(tuple(op["path"].split("/")))
+    if op["op"] == "startup" and op.get("env"):
+        return "ANoPruneStartup"
     return "(AOp %s)" % op_to_coq(ids, fx, op, before, after)
 
 
@@ -587,8 +621,8 @@ def check_complete(st, m):
 def monitor_step(op, before, o):
     """the property on one step of the real store.  Returns list of (sig, what)."""
     out = []
-    if op["op"] == "legacy":
-        return out  # scaffolding: the store of an older version is planted, nothing to judge
+    if op["op"] in ("legacy", "corrupt"):
+        return out  # scaffolding: the store of an older version / a torn manifest is planted, nothing to judge
     st = o["state"]
     api = o.get("api") or {}
     listed = api.get("listed")
@@ -653,7 +687,7 @@ def monitor_step(op, before, o):
         if p not in bmap and fold(tuple(p.split("/"))) not in tg:
             out.append(({"class": "frame-manifest", "op": op["op"]}, "%s created manifest %s of another model" % (op["op"], p)))
     # start-up prune leaves exactly the referenced blobs
-    if op["op"] == "startup" and all(m["readable"] for m in st["manifests"]) and o.get("code") == 200:
+    if op["op"] == "startup" and not op.get("env") and all(m["readable"] for m in st["manifests"]) and o.get("code") == 200:
         ref = set()
         for m in readable:
             for l in m["layers"] + [m["config"]]:
